@@ -52,6 +52,22 @@ CHECKS["C06"] = dict(
               "verification by independent code",
 )
 
+CHECKS["C07"] = dict(
+    category="model_checking",
+    text="GetEntriesRange.tla states the range law from the property text (SpecRange) and transcribes the handler's int64 "
+         "arithmetic on a scaled machine word (CodeRange); TLC checks the laws and CodeRange = SpecRange exhaustively over "
+         "boundary clusters near 0 and near MaxInt for batch sizes 1..10 and 1000, alignment on/off. Every case is mapped "
+         "through the cluster homomorphism to real int64 parameters and sent to get-entries of a real instance: the "
+         "GetLeavesByRangeRequest seen by the backend (or its absence), the status and the served bytes are compared; "
+         "malformed parameter strings must be 4xx without a backend call; served entries are decoded with "
+         "ct.LogEntryFromLeaf and compared with the submissions; get-entry-and-proof must serve the same bytes.",
+    design="4/C07",
+    note="scaled-word homomorphism (MaxWord=7807; 2^63-1-MaxWord divisible by every batch size used); values only from "
+         "boundary clusters; reference backend; Apalache run on true integers not built (see DESIGN.md).",
+    technique="TLA+ case-analysis spec + TLC exhaustive enumeration; every enumerated case replayed into the real handler "
+              "with backend request inspection",
+)
+
 NOT_YET = {}
 
 def main():
